@@ -15,7 +15,7 @@ PROP_MODULES = {
     "C03": ["contracts.c03", "contracts.c03_bounded", "contracts.c06", "contracts.c05c"],
     "C04": ["contracts.c04", "contracts.c05", "contracts.c03"],
     "C05": ["contracts.c05", "contracts.c05c", "contracts.c05_bounded", "contracts.c05_fields_bounded"],
-    "C11": ["contracts.c11", "contracts.c09", "contracts.c11_bounded", "contracts.c02"],
+    "C11": ["contracts.c11", "contracts.c09", "contracts.c11_bounded", "contracts.c02", "contracts.c06b"],
     "C19": ["contracts.c19", "contracts.c19b", "contracts.c19_bounded", "contracts.c02", "contracts.c15"],
     "C12": ["contracts.c12", "contracts.c12b", "contracts.c12c", "contracts.c12_bounded", "contracts.c10", "contracts.c13c"],
     "C13": ["contracts.c13", "contracts.c13b", "contracts.c13c", "contracts.c13_bounded", "contracts.c11", "contracts.c12", "contracts.c12c", "contracts.c10"],
